@@ -492,9 +492,17 @@ impl BigDecimal {
                 let p = ten_to_the(diff);
                 let (mut q, r) = self.int_val.div_rem(&p);
 
+                // round half away from zero on the magnitude of the remainder,
+                // so that a value and its negation are treated symmetrically
+                let r = r.abs();
+
                 // check for "leading zero" in remainder term; otherwise round
                 if p < 10 * &r {
-                    q += get_rounding_term(&r);
+                    if self.int_val.is_negative() {
+                        q -= get_rounding_term(&r);
+                    } else {
+                        q += get_rounding_term(&r);
+                    }
                 }
 
                 BigDecimal {
